@@ -314,14 +314,19 @@ namespace
         else if (less(last, memory))
             // insert at the end
             return {last, end_node};
-        else if (less(last_dealloc_prev, memory) && less(memory, last_dealloc))
+
+        // last_dealloc_prev/last_dealloc can be the proxy nodes,
+        // they are before/after every node, regardless of their own address
+        auto after_prev  = last_dealloc_prev == begin_node || less(last_dealloc_prev, memory);
+        auto before_next = last_dealloc == end_node || less(memory, last_dealloc);
+        if (after_prev && before_next)
             // insert before last_dealloc
             return {last_dealloc_prev, last_dealloc};
-        else if (less(memory, last_dealloc))
+        else if (before_next)
             // insert into [first, last_dealloc_prev]
             return find_pos_interval(info, memory, begin_node, first, last_dealloc_prev,
                                      last_dealloc);
-        else if (greater(memory, last_dealloc))
+        else if (last_dealloc != end_node && greater(memory, last_dealloc))
             // insert into (last_dealloc, last]
             return find_pos_interval(info, memory, last_dealloc_prev, last_dealloc, last, end_node);
 
